@@ -79,7 +79,7 @@ theorem TInvAll.micro : ∀ rt, MReach rt → TInvAll rt := by
   · intro s a ha rt hg h; exact TInvAll.worker rt s _ h (TInv.flt s rt.client rt.state a ha _ hg (h s))
   · intro s a ha rt hg h; exact TInvAll.worker rt s _ h (TInv.snk s rt.client rt.state a ha _ hg (h s))
   · exact client_families TInv.Kept TInv.client_base TInv.client_mon TInv.client_cfg TInv.client_start TInv.client_err
-      TInv.client_stop TInv.client_acc TInv.client_flush
+      TInv.client_stop TInv.client_acc (fun s r _ => TInv.client_flush s r)
 
 theorem TInvAll.reach (rt : RT) (h : Reach rt) : TInvAll rt := TInvAll.micro rt (Reach.micro rt h)
 
